@@ -17,11 +17,19 @@ failed before them).
 -/
 namespace DashLive.LiveTiming
 
-/-- the inputs C08 quantifies over: a clock at or after the Unix epoch and,
-for an explicit `start`, an instant that is not in the future -/
+/-- the inputs C08 quantifies over: a clock at or after the Unix epoch and, for an
+explicit `start`, an instant that is not in the future.  The hypothesis is stated in
+its weakest form – the start *truncated to a whole second* (what the code uses as
+availabilityStartTime) is not after `now` – which is exactly the condition under
+which the handler serves a manifest at all (`served_iff_accepted`); an instant
+`≤ now` satisfies it (`accepted_of_le`). -/
 structure Accepted (now : Int) (o : Options) : Prop where
   clock : 0 ≤ now
-  start_le_now : ∀ t off, o.start = .explicit t off → t ≤ now
+  start_le_now : ∀ t off, o.start = .explicit t off → floorSec t ≤ now
+
+theorem accepted_of_le (now : Int) (o : Options) (h0 : 0 ≤ now)
+    (h : ∀ t off, o.start = .explicit t off → t ≤ now) : Accepted now o :=
+  ⟨h0, fun t off ht => Int.le_trans (floorSec_le t) (h t off ht)⟩
 
 local notation "T" => calculateLiveParams
 
@@ -269,6 +277,44 @@ theorem now_follows_clock (now : Int) (ref : Ref) (o : Options) (hs : o.start = 
   rw [calc_ast, backOff_of_lt hlt]
   unfold resolved; rw [hs]; rfl
 
+/-! ### The started guard: which requests are served at all -/
+
+/-- **a manifest is served exactly for the accepted inputs**: `check_stream_has_started`
+refuses (404) precisely the explicit starts whose availabilityStartTime – the start
+truncated to a whole second – lies after `now`, compared on exact microseconds: one
+microsecond ahead is refused, a start later in the *same* second as `now` is served (its
+availabilityStartTime is not after `now`).  Every clause above therefore holds for every
+response that is a 200. -/
+theorem served_iff_accepted (now : Int) (ref : Ref) (o : Options) (h0 : 0 ≤ now) :
+    serveLive now ref o = some (T now ref o) ↔ Accepted now o := by
+  constructor
+  · intro hs
+    refine ⟨h0, ?_⟩
+    intro t off ht
+    have he : 0 ≤ (T now ref o).elapsedTime := by
+      unfold serveLive started at hs
+      by_cases hc : 0 ≤ (T now ref o).elapsedTime
+      · exact hc
+      · simp [hc] at hs
+    rw [calc_elapsed] at he
+    unfold resolved at he
+    rw [ht] at he
+    simp only [resolveStart, if_true, backOff] at he
+    split at he
+    · omega
+    · simpa using he
+  · intro h
+    obtain ⟨_, _, _, h4⟩ := calc_core ref h.clock h.start_le_now
+    unfold serveLive started
+    simp [Int.le_of_lt h4]
+
+/-- a request is either served with the model's timing or refused -/
+theorem refused_iff_not_accepted (now : Int) (ref : Ref) (o : Options) (h0 : 0 ≤ now) :
+    serveLive now ref o = none ↔ ¬ Accepted now o := by
+  rw [← served_iff_accepted now ref o h0]
+  unfold serveLive
+  split <;> simp
+
 /-! ### Along the chain manifest → Location / PatchLocation → next document -/
 
 /-- the option vector a manifest hands on is itself an accepted input at every later clock, so
@@ -279,6 +325,7 @@ theorem handon_accepted (now₁ now₂ : Int) (ref : Ref) (o : Options) (h : Acc
   refine ⟨Int.le_trans h.clock hle, ?_⟩
   intro t off ht
   simp only [handOn, Start.explicit.injEq] at ht
+  have := floorSec_le t
   omega
 
 /-- **the followed document describes the same stream**: same availabilityStartTime (whatever
@@ -353,6 +400,16 @@ example : (T (19782 * 86400000000 + 59999999) exRef { start := .month }).availab
 /-- one microsecond later `today` is today -/
 example : (T (19782 * 86400000000 + 60000000) exRef { start := .today }).availabilityStartTime
     = 19782 * 86400000000 := by decide +kernel
+
+/-- 2024-02-29T12:00:00.5Z: a start half a second ahead (12:00:01Z) is refused, as is one 1 µs ahead
+of the next whole second; a start later in the same second (12:00:00.7Z → availabilityStartTime
+12:00:00Z) is served -/
+example : serveLive (19782 * 86400000000 + 43200500000) exRef
+    { start := .explicit (19782 * 86400000000 + 43201000000) 0 } = none := by decide +kernel
+example : serveLive (19782 * 86400000000 + 43200999999) exRef
+    { start := .explicit (19782 * 86400000000 + 43201000000) 0, mup := some (-1) } = none := by decide +kernel
+example : (serveLive (19782 * 86400000000 + 43200500000) exRef
+    { start := .explicit (19782 * 86400000000 + 43200700000) 0 }).isSome = true := by decide +kernel
 
 /-! ### Recorded witnesses -/
 
